@@ -4,6 +4,7 @@ import Driver.C03
 import Driver.C15
 import RelicVerif.Spec.Sig
 import RelicVerif.Spec.CurveFast
+import Driver.C05p
 
 namespace Driver.C05
 open Driver Relic.Spec.Curve Relic.Spec.Sig
@@ -195,7 +196,7 @@ def handleWith (fast : Bool) (env : Option C03.Env) (w : Nat) (op : String) (arg
       let kv := parseKV got
       let ok := ((kv.lookup "pp").bind (parsePt e.c.p)).map (fun pp => o.pub pp && kv.lookup "on" == some "1") |>.getD false
       mustHold ok got "a point of the group other than the identity" "ers.gen"
-    else none
+    else C05p.handle o e op args got
   | "ecdsa_sig", [_, hash, msg, d] => do
     let msg ← parseBytes msg
     let d ← parseHexNat d
@@ -386,7 +387,7 @@ def handleWith (fast : Bool) (env : Option C03.Env) (w : Nat) (op : String) (arg
     let size ← (rest.getD (2 * mx) "").toNat?
     let (ring, _) ← parseTrsRing e.c.p size (rest.drop (2 * mx + 1))
     verdict (etrsVerify o sha n fc g pp thres tds ys ring msg) got "etrs"
-  | _, _ => none
+  | _, _ => C05p.handle o e op args got
 
 /-- the lines are evaluated with the accelerated scalar multiplication; a deterministic sample (by the length of the line) is
     evaluated again with the affine definition and the two verdicts must coincide -/
